@@ -8,7 +8,7 @@ for f in sorted(glob.glob('/verif/seeded/*/meta.json')):
     caught = []; missed = []
     for c, v in sorted(cb.items()):
         if isinstance(v, list):
-            caught.append(f"{c} (`{v[0][:70]}`" + (f" +{len(v)-1}" if len(v) > 1 else "") + ")")
+            caught.append(f"{c} (`{v[0][:70].replace(chr(124), chr(92)+chr(124))}`" + (f" +{len(v)-1}" if len(v) > 1 else "") + ")")
         else:
             missed.append(f"{c}: {v}")
     note = m.get("note", "")
